@@ -5,6 +5,7 @@ import (
 	"go/constant"
 	"go/token"
 	"go/types"
+	"sort"
 	"strings"
 
 	"golang.org/x/tools/go/ssa"
@@ -275,21 +276,109 @@ func ruleLineCounter(c *core.Ctx, rule string) {
 	}
 	fname := core.FuncName(psc)
 	n := 0
+	// the constructor calls of the loop itself, and those of the helpers the loop hands the number to
+	// (parseEntry(trimmed, line, lineNumber) building the error for that line)
+	type lineUse struct {
+		cal  *ssa.Function
+		arg  ssa.Value // the value in ParseStreamCallback
+		call *ssa.Call // the call in ParseStreamCallback
+		via  string
+	}
+	var uses []lineUse
+	var inHelper func(g *ssa.Function, depth int) (byParam map[int][]*ssa.Function, other []string)
+	inHelper = func(g *ssa.Function, depth int) (map[int][]*ssa.Function, []string) {
+		byParam := map[int][]*ssa.Function{}
+		var other []string
+		paramIdx := func(v ssa.Value) int {
+			for i, p := range g.Params {
+				if ssa.Value(p) == v {
+					return i
+				}
+			}
+			return -1
+		}
+		for _, b := range g.Blocks {
+			for _, in := range b.Instrs {
+				call, ok := in.(*ssa.Call)
+				if !ok || core.Callee(&call.Call) == nil {
+					continue
+				}
+				cal := core.Callee(&call.Call)
+				if isErrCtor(cal) {
+					for i, p := range cal.Params {
+						if fld, ok := fieldSetFromParam(cal, p); ok && fld == "LineNumber" && i < len(call.Call.Args) {
+							if k := paramIdx(call.Call.Args[i]); k >= 0 {
+								byParam[k] = append(byParam[k], cal)
+							} else {
+								other = append(other, c.P.Pos(call.Pos())+": the line number handed to "+cal.Name()+" is "+call.Call.Args[i].String()+", not the number the scan loop passed in")
+							}
+						}
+					}
+					continue
+				}
+				if depth > 0 && cal != g && core.FnPkgPath(cal) == parserPkg && len(cal.Blocks) > 0 {
+					sub, o2 := inHelper(cal, depth-1)
+					other = append(other, o2...)
+					for j, ctors := range sub {
+						if j >= len(call.Call.Args) {
+							continue
+						}
+						if k := paramIdx(call.Call.Args[j]); k >= 0 {
+							byParam[k] = append(byParam[k], ctors...)
+						} else {
+							other = append(other, c.P.Pos(call.Pos())+": the line number handed on to "+cal.Name()+" is "+call.Call.Args[j].String()+", not the number the scan loop passed in")
+						}
+					}
+				}
+			}
+		}
+		return byParam, other
+	}
 	for _, b := range psc.Blocks {
 		for _, in := range b.Instrs {
 			call, ok := in.(*ssa.Call)
-			if !ok || !isErrCtor(call.Call.StaticCallee()) {
+			if !ok || core.Callee(&call.Call) == nil {
 				continue
 			}
-			cal := call.Call.StaticCallee()
-			for i, p := range cal.Params {
-				fld, ok := fieldSetFromParam(cal, p)
-				if !ok || fld != "LineNumber" {
-					continue
+			cal := core.Callee(&call.Call)
+			if isErrCtor(cal) {
+				for i, p := range cal.Params {
+					if fld, ok := fieldSetFromParam(cal, p); ok && fld == "LineNumber" && i < len(call.Call.Args) {
+						uses = append(uses, lineUse{cal, call.Call.Args[i], call, ""})
+					}
 				}
+				continue
+			}
+			if core.FnPkgPath(cal) != parserPkg || len(cal.Blocks) == 0 || cal == psc || cal.Signature.Recv() != nil {
+				continue
+			}
+			byParam, other := inHelper(cal, 2)
+			for _, m := range other {
 				n++
-				arg := call.Call.Args[i]
-				disc := cal.Name()
+				c.Violate(rule, fname, cal.Name(), c.P.Pos(call.Pos()), m, nil)
+			}
+			for j, ctors := range byParam {
+				for _, ct := range ctors {
+					if j < len(call.Call.Args) {
+						uses = append(uses, lineUse{ct, call.Call.Args[j], call, " via " + cal.Name()})
+					}
+				}
+			}
+		}
+	}
+	sort.SliceStable(uses, func(i, j int) bool {
+		if uses[i].call.Pos() != uses[j].call.Pos() {
+			return uses[i].call.Pos() < uses[j].call.Pos()
+		}
+		return uses[i].cal.Name() < uses[j].cal.Name()
+	})
+	{
+		{
+			for _, u := range uses {
+				cal, call := u.cal, u.call
+				n++
+				arg := u.arg
+				disc := cal.Name() + u.via
 				pos := c.P.Pos(call.Pos())
 				inc, ok := arg.(*ssa.BinOp)
 				if !ok || inc.Op != token.ADD {
@@ -305,7 +394,7 @@ func ruleLineCounter(c *core.Ctx, rule string) {
 				// the loop must call Scan once per iteration in the φ's block
 				scanInHead := false
 				for _, hi := range phi.Block().Instrs {
-					if hc, ok := hi.(*ssa.Call); ok && isMethod(hc.Call.StaticCallee(), "bufio", "Scanner", "Scan") {
+					if hc, ok := hi.(*ssa.Call); ok && isMethod(core.Callee(&hc.Call), "bufio", "Scanner", "Scan") {
 						scanInHead = true
 					}
 				}
@@ -358,7 +447,7 @@ func ruleLineCounterCell(c *core.Ctx, rule string, psc *ssa.Function) {
 	var loopHead *ssa.BasicBlock
 	for _, b := range psc.Blocks {
 		for _, in := range b.Instrs {
-			if call, ok := in.(*ssa.Call); ok && isMethod(call.Call.StaticCallee(), "bufio", "Scanner", "Scan") && isLoopHead(b) {
+			if call, ok := in.(*ssa.Call); ok && isMethod(core.Callee(&call.Call), "bufio", "Scanner", "Scan") && isLoopHead(b) {
 				loopHead = b
 			}
 		}
